@@ -139,8 +139,10 @@ def gen_history(seed, tier, classes=None, weights=None, n_ops=(6, 16),
                 max_handles=3, pre_p=0.4, dmax=6, fresh_p=0.0, dataset_kinds=None,
                 unknown=False, verbose_p=0.15, extras_p=0.5, share_p=0.3,
                 classifier_bias=1, cp_fit_p=0.25, cp_invalid_p=0.0, calib_invalid_p=0.25,
-                store_bias=1, tiny_scale_p=0.0):
+                store_bias=1, tiny_scale_p=0.0, wide_p=0.0):
   r = substream(seed, "hist")
+  if wide_p and substream(seed, "hist-wide").random() < wide_p:
+    return gen_wide_history(seed)
   if tier == "thorough" and r.random() < 0.5:
     # deeper exploration: half of the thorough runs use longer histories,
     # more live handles and datasets up to the properties' dimension bound
@@ -343,11 +345,15 @@ def gen_history(seed, tier, classes=None, weights=None, n_ops=(6, 16),
         ops.append(op)
         s.pre, s.data = newpre, other
         s.fitted = False
-        if r.random() < 0.35:
-          # a query between the swap and the refit: the estimator is still the
-          # one fitted with the old preprocessor_ and must stay so
-          ops.append(dict(op="query", h=s.hid, method=r.choice(methods(s)),
-                          probe=dict(probe(s), data=other, via=r.choice(["indices", "formed"]))))
+        if r.random() < 0.5:
+          # queries between the swap and the refit: the estimator is still the
+          # one fitted with the old preprocessor_ and must stay so - whichever
+          # query method is used (a battery over the estimator's query methods)
+          for mth in sorted(set(methods(s))):
+            if r.random() < 0.5:
+              ops.append(dict(op="query", h=s.hid, method=mth,
+                              probe=dict(probe(s), data=r.choice([other, s.fit_data or other]),
+                                         via=r.choice(["indices", "formed"]))))
         if r.random() < 0.7:
           fit_op(s, other)
         else:
@@ -400,6 +406,44 @@ def gen_history(seed, tier, classes=None, weights=None, n_ops=(6, 16),
                         probe=dict(probe(s), via="indices")))
       else:
         ops.append(dict(op="fit", h=s.hid, data=s.data, via="indices"))
+  return plan
+
+
+def gen_wide_history(seed):
+  """A short history on a *wide* dataset (more than 500 samples, 50-64
+  features): the regime in which dependencies switch to randomised solvers
+  (scikit-learn's PCA, for one), i.e. where hidden randomness can enter a fit
+  whose random_state is an integer."""
+  r = substream(seed, "hist-wide-plan")
+  d = r.randint(52, 64)
+  c = r.choice([2, 3, 4])
+  desc = dict(kind="blobs", seed=r.randrange(10**6), n=r.randint(505, 530), d=d, classes=c,
+              extra=0, cond=r.choice([1, 10]), scale=0, sep=r.choice([1.0, 2.0]))
+  plan = dict(run_seed=seed, datasets={"D0": desc}, ops=[],
+              world=dict(jumpy_clock=False, fresh_restarts=0))
+  ops = plan["ops"]
+  name = r.choice(["NCA", "NCA", "MLKR", "MLKR", "LMNN"])
+  nc = r.randint(2, 6)
+  p = dict(n_components=nc, init=r.choice(["pca", "pca", "auto", "random"]),
+           max_iter=r.choice([1, 2]), random_state=r.randrange(10**6))
+  if name == "LMNN":
+    p["n_neighbors"] = r.choice([1, 2])
+  ops.append(dict(op="new", h=0, cls=name, params=p))
+  ops.append(dict(op="fit", h=0, data="D0", via="formed"))
+  for _ in range(r.randint(1, 3)):
+    k = r.choice(["ambient", "refit", "clone", "restart", "query"])
+    if k == "ambient":
+      ops.append(dict(op="ambient", seed=r.randrange(10**6), draws=r.randint(0, 5)))
+    elif k == "refit":
+      ops.append(dict(op="fit", h=0, data="D0", via="formed"))
+    elif k == "clone":
+      ops.append(dict(op="clone", h=0, h2=1))
+      ops.append(dict(op="fit", h=1, data="D0", via="formed"))
+    elif k == "restart":
+      ops.append(dict(op="restart", h=0, how="inproc"))
+    else:
+      ops.append(dict(op="query", h=0, method=r.choice(["transform", "pair_distance"]),
+                      probe=dict(data="D0", seed=r.randrange(1000), m=3, kind="plain", via="formed")))
   return plan
 
 
